@@ -157,6 +157,11 @@ def gen_jobs(tier, seed):
                                 "reqpos": 1, "kwn": ["k"], "kwt": [kt], "kwreq": [rng.random() < 0.7], "body": rng.choice(["leaf", "next"])})
             methods.append({"id": "m9", "prio": 0, "reg": 9, "pos": [cls(1)], "reqpos": 1, "kwn": ["k"], "kwt": [cls(1)], "kwreq": [False], "body": "leaf"})
             calls = [{"pos": [a], "kw": {"k": b}} for a in ("i1", "sa") for b in NAMES] + [{"pos": ["i1"], "kw": {}}]
+            if q % 20 == 19:
+                # no positional parameter at all: the value-dependent parameter is the only (keyword-only) one
+                for m in methods:
+                    m["pos"], m["reqpos"] = [], 0
+                calls = [{"pos": [], "kw": {"k": b}} for b in NAMES]
         if q % 2 == 1:
             # the order in which argument classes are first seen must not matter
             calls = list(reversed(calls))
